@@ -302,7 +302,7 @@ class Parser:
             return True
 
         condition = (
-            ttype in ["left_cbracket", "comma"]
+            ttype in ["left_cbracket", "comma", "right_parenthesis"]
             and self.__curcommand.non_deterministic_args
         )
         if condition:
@@ -349,7 +349,10 @@ class Parser:
             self.__set_expected("identifier")
             return True
 
-        if ttype == "right_parenthesis":
+        if (
+            ttype == "right_parenthesis"
+            and not self.__curcommand.non_deterministic_args
+        ):
             self.__pop_expected_bracket(ttype, tvalue)
             self.__up()
             return True
